@@ -128,7 +128,7 @@ def ensure_facts(cfg='default', repo=None, quiet=False):
         lock.close()
 
 
-def _prune(keep, n=6):
+def _prune(keep, n=16):
     try:
         ds = sorted((os.path.getmtime(os.path.join(FACTS, x)), x) for x in os.listdir(FACTS))
     except OSError:
